@@ -439,6 +439,22 @@ func parseKeyAux(family, key string) map[string]string {
 		if len(f) == 3 {
 			a["bridged"], a["op"], a["name"] = f[0], f[1], f[2]
 		}
+	case family == "walk-mutation":
+		if len(f) == 5 {
+			a["group"], a["walker"], a["structure"], a["mutation"], a["mode"], a["limit"] = f[0], f[0], f[1], f[2], f[3], strings.TrimPrefix(f[4], "L")
+		}
+	case family == "sinks":
+		if len(f) == 2 {
+			a["source"], a["sink"] = f[0], f[1]
+		}
+	case family == "globals":
+		if len(f) == 3 {
+			a["target"], a["mutation"], a["action"] = f[0], f[1], f[2]
+		}
+	case family == "descriptors":
+		if len(f) == 5 {
+			a["receiver"], a["name"], a["op"], a["payload"], a["attrs"] = f[0], f[1], f[2], f[3], f[4]
+		}
 	case family == "entry":
 		if len(f) == 2 {
 			a["route"], a["body"] = f[0], f[1]
